@@ -1,6 +1,7 @@
 package limiter
 
 import (
+	"fmt"
 	"sync"
 	"time"
 
@@ -57,37 +58,44 @@ func (m *manager) release(e *item) {
 }
 
 // get data from storage or memory
-func (m *manager) get(key string) *item {
+func (m *manager) get(key string) (*item, error) {
 	var it *item
 	if m.storage != nil {
 		it = m.acquire()
 		raw, err := m.storage.Get(key)
 		if err != nil {
-			return it
+			m.release(it)
+			return nil, fmt.Errorf("limiter: failed to get key %q from storage: %w", key, err)
 		}
 		if raw != nil {
 			if _, err := it.UnmarshalMsg(raw); err != nil {
-				return it
+				m.release(it)
+				return nil, fmt.Errorf("limiter: failed to decode the entry of key %q: %w", key, err)
 			}
 		}
-		return it
+		return it, nil
 	}
 	if it, _ = m.memory.Get(key).(*item); it == nil { //nolint:errcheck // We store nothing else in the pool
 		it = m.acquire()
-		return it
+		return it, nil
 	}
-	return it
+	return it, nil
 }
 
 // set data to storage or memory
-func (m *manager) set(key string, it *item, exp time.Duration) {
+func (m *manager) set(key string, it *item, exp time.Duration) error {
 	if m.storage != nil {
-		if raw, err := it.MarshalMsg(nil); err == nil {
-			_ = m.storage.Set(key, raw, exp) //nolint:errcheck // TODO: Handle error here
+		raw, err := it.MarshalMsg(nil)
+		if err == nil {
+			err = m.storage.Set(key, raw, exp)
 		}
 		// we can release data because it's serialized to database
 		m.release(it)
-	} else {
-		m.memory.Set(key, it, exp)
+		if err != nil {
+			return fmt.Errorf("limiter: failed to store the entry of key %q: %w", key, err)
+		}
+		return nil
 	}
+	m.memory.Set(key, it, exp)
+	return nil
 }
